@@ -7,9 +7,12 @@ package known
 
 import (
 	"os"
+	"strings"
 
 	"github.com/dlclark/regexp2/v2/syntax"
 
+	"verif/internal/ast"
+	"verif/internal/cls"
 	"verif/internal/h"
 )
 
@@ -35,4 +38,37 @@ func NonboundaryAtomic(key string, recheck func() bool) bool {
 		h.Excluded(key)
 	}
 	return gone
+}
+
+// affectedByNotWordFold are the runes whose case orbit (SimpleFold plus the engine's lower-case
+// table) straddles the ASCII word set: K (Kelvin) ~ k, ſ ~ s, İ -> i.
+const affectedByNotWordFold = "iI\u0130\u0131kK\u212AsS\u017F"
+
+// RE2IgnoreCaseNotWord attributes a disagreement to the finding "under RE2/ECMAScript with
+// IgnoreCase the range-based \W is case-folded as a positive set, so it contains k, s (and i
+// inside a bracket class)". The predicate is syntactic and narrow: the RE2 option, a \W under
+// an effective IgnoreCase in the pattern, and one of the nine affected runes in the input.
+func RE2IgnoreCaseNotWord(key string, root *ast.Node, re2 bool, input string) bool {
+	if !Enabled || !re2 || root == nil || !strings.ContainsAny(input, affectedByNotWordFold) {
+		return false
+	}
+	var inClass func(e *cls.Expr) bool
+	inClass = func(e *cls.Expr) bool {
+		if e == nil {
+			return false
+		}
+		for _, it := range e.Items {
+			if it.Kind == cls.Short && it.Name == "W" {
+				return true
+			}
+		}
+		return inClass(e.Sub)
+	}
+	if !root.Has(func(x *ast.Node) bool {
+		return x.Eff.I && ((x.K == ast.KShort && x.S == "W") || (x.K == ast.KClass && inClass(x.C)))
+	}) {
+		return false
+	}
+	h.Excluded(key)
+	return true
 }
